@@ -824,6 +824,10 @@ class DataFrameSchemaBackend(PandasSchemaBackend):
         )
         for lst in temp_unique:
             subset = [x for x in lst if x in check_obj]
+            if not subset:
+                # none of the columns is in the dataframe: their absence is
+                # reported by the column presence check
+                continue
             duplicates = check_obj.duplicated(  # type: ignore
                 subset=subset, keep=keep_setting  # type: ignore
             )
